@@ -1893,7 +1893,7 @@ def real_yields(prog, f):
     return out
 
 
-def scalar_leaves(prog, f, operand, depth=4, out=None):
+def scalar_leaves(prog, f, operand, depth=4, out=None, sites=None):
     """fields / constants / opaque calls a scalar expression is computed from (through arithmetic, comparisons, in-crate helpers)"""
     if out is None:
         out = set()
@@ -1901,7 +1901,7 @@ def scalar_leaves(prog, f, operand, depth=4, out=None):
         if o.kind in ('binop', 'unop'):
             for side in ('a', 'b', 'o'):
                 if side in o.data:
-                    scalar_leaves(prog, f, o.data[side], depth, out)
+                    scalar_leaves(prog, f, o.data[side], depth, out, sites)
         elif o.kind == 'field':
             out.add(('field', o.data[1]))
         elif o.kind == 'const':
@@ -1913,16 +1913,37 @@ def scalar_leaves(prog, f, operand, depth=4, out=None):
             if tg and depth > 0:
                 for t in tg:
                     g = prog.fns[t]
-                    scalar_leaves(prog, g, 0, depth - 1, out)
+                    decision_leaves(prog, g, depth - 1, out)
+                for a in c.args:
+                    scalar_leaves(prog, f, a, depth, out, sites)
             elif c.name in ('saturating_sub', 'checked_sub', 'wrapping_sub', 'unwrap_or', 'unwrap_or_default', 'min', 'max', 'cmp', 'ge', 'le', 'gt', 'lt', 'eq', 'ne', 'is_ge', 'is_le', 'is_gt', 'is_lt', 'is_eq'):
                 for a in c.args:
-                    scalar_leaves(prog, f, a, depth, out)
+                    scalar_leaves(prog, f, a, depth, out, sites)
             else:
                 out.add(('call', c.name))
-        elif o.kind in ('arg', 'upvar'):
+                if sites is not None:
+                    sites.append((c.name, f.id, c.bb))
+        elif o.kind == 'arg':
+            ty = f.locals[o.data]['s'] if isinstance(o.data, int) and o.data < len(f.locals) else '&'
+            if not ty.startswith('&') and not ty.startswith('{'):
+                out.add(('arg', f.debug_name(o.data) or '_%s' % o.data))
+        elif o.kind == 'upvar':
             continue
         else:
             out.add((o.kind, str(o.data)[:30]))
+    return out
+
+
+def decision_leaves(prog, f, depth=4, out=None):
+    """leaves of everything a small pure function's result depends on: the data that flows into the return value and the
+    operands of every branch in its body (`a && b` is control flow in MIR)"""
+    if out is None:
+        out = set()
+    scalar_leaves(prog, f, 0, depth, out)
+    for i in f.reachable():
+        t = f.blocks[i]['t']
+        if t['k'] == 'switch':
+            scalar_leaves(prog, f, t['o'], depth, out)
     return out
 
 
